@@ -299,3 +299,61 @@ func stripConv18(v ssa.Value) ssa.Value {
 	}
 	return v
 }
+
+// totpNormalised (C12): the replay guard is about the code that is validated.
+// totp.Validate (pquerna/otp: hotp.ValidateCustom) trims surrounding white
+// space from the passcode before comparing; where the library does that, the
+// value compared with and recorded as the last code must have been trimmed
+// the same way, or a used code is accepted again with a space appended.
+func (c *Ctx) totpNormalised(rule string) {
+	r := c.R
+	trims, how := true, "assumed (body of hotp.ValidateCustom not loaded; v1.4.0 trims)"
+	var lib *ssa.Function
+	if c.P.SSA != nil {
+		if lp := c.P.SSA.ImportedPackage("github.com/pquerna/otp/hotp"); lp != nil {
+			lib = lp.Func("ValidateCustom")
+		}
+	}
+	if lib != nil && lib.Blocks != nil && len(lib.Params) > 0 {
+		trims, how = false, "hotp.ValidateCustom compares the passcode as given"
+		for _, call := range Calls(lib) {
+			if Callee(call) == "strings.TrimSpace" && Arg(call, 0) == ssa.Value(lib.Params[0]) {
+				trims, how = true, "hotp.ValidateCustom applies strings.TrimSpace to the passcode ("+c.P.InstrPos(call)+")"
+			}
+		}
+	}
+	r.Extra["totp_validator_trims"] = how
+	n := 0
+	for _, fn := range c.P.Funcs {
+		if pkgOf(fn) != "ab/otp/twofactor/totp2fa" || fn.Blocks == nil {
+			continue
+		}
+		vals := CallsTo(fn, fnTOTPValidate, fnTOTPValidateCustom)
+		puts := c.userCalls(fn, "PutTOTPLastCode")
+		if len(vals) == 0 || len(puts) == 0 {
+			continue
+		}
+		name := FuncName(fn)
+		for _, tv := range vals {
+			n++
+			if !trims {
+				r.Ok(rule, name, "replay subject = validated code", posf(c, tv), how)
+				continue
+			}
+			trimmed := func(v ssa.Value) bool {
+				call, _ := CallOf(stripConv18(v))
+				return call != nil && Callee(call) == "strings.TrimSpace"
+			}
+			ok := trimmed(Arg(tv, 0))
+			for _, pc := range puts {
+				if !trimmed(Arg(pc, 0)) {
+					ok = false
+				}
+			}
+			r.Check(ok, rule, name, "replay subject = validated code", posf(c, tv), "the code is trimmed once and that value is compared, recorded and validated", "the validator trims the passcode ("+how+") but the code recorded/compared for the replay guard is the raw input: a code that was just accepted is accepted again with white space added")
+		}
+	}
+	if n == 0 {
+		r.Unknown(rule, "-", "totp.Validate with replay guard", "-", "no function of totp2fa both validates a code and records it (reference: validate, PostConfirm)")
+	}
+}
